@@ -71,7 +71,7 @@ func vhAttUnmarshal(c *DatabaseCollection, ctx context.Context, docid string, da
 	doc.Sequence = 5
 	doc.History = RevTree{"1-a": &RevInfo{ID: "1-a"}, "2-b": &RevInfo{ID: "2-b", Parent: "1-a"}, "3-b": &RevInfo{ID: "3-b", Parent: "2-b"}}
 	if w.hasLeaf {
-		doc.History["2-a"] = &RevInfo{ID: "2-a", Parent: "1-a", HasAttachments: w.leafAtts[0] || w.leafAtts[1], Body: []byte("{}")}
+		doc.History["2-a"] = &RevInfo{ID: "2-a", Parent: "1-a", HasAttachments: w.leafAtts[0] || w.leafAtts[1], Body: vhAttLeafBody(w.leafAtts)}
 	}
 	doc.SetRevTreeID("3-b")
 	doc.Channels = channels.ChannelMap{}
@@ -133,6 +133,35 @@ func vhAttStoredBranchAtts(doc *Document, revid string) AttachmentsMeta {
 	for i := 0; i+len(marker)+2 <= len(b); i++ {
 		if string(b[i:i+len(marker)]) == marker {
 			return vhAttMeta([2]bool{b[i+len(marker)] == 'Y', b[i+len(marker)+1] == 'Y'})
+		}
+	}
+	return nil
+}
+
+// vhAttLeafBody: the stored body of a non-winning leaf with its attachment metadata stamped in (token form, see
+// vhAttJSONMarshal).
+func vhAttLeafBody(has [2]bool) []byte {
+	if !has[0] && !has[1] {
+		return []byte("{}")
+	}
+	b := []byte(`{"` + BodyAttachments + `":"NN"}`)
+	for i, h := range has {
+		if h {
+			b[len(b)-4+i] = 'Y'
+		}
+	}
+	return b
+}
+
+// vhAttBodyUnmarshal stands in for Body.Unmarshal (JSON decoding) on the stored body of a non-winning revision.
+func vhAttBodyUnmarshal(b *Body, data []byte) error {
+	*b = Body{}
+	marker := `"` + BodyAttachments + `":"`
+	for i := 0; i+len(marker)+2 <= len(data); i++ {
+		if string(data[i:i+len(marker)]) == marker {
+			if m := vhAttMeta([2]bool{data[i+len(marker)] == 'Y', data[i+len(marker)+1] == 'Y'}); len(m) > 0 {
+				(*b)[BodyAttachments] = map[string]any(m)
+			}
 		}
 	}
 	return nil
@@ -227,9 +256,6 @@ func VHarness_C14_ObsoleteSweep() {
 	if !w.tombstone {
 		vhAttNewRevision(w, w.curAtts)
 	}
-	// a tombstone that hands the document over to the conflicting leaf promotes that leaf's stored body (JSON decoding):
-	// outside this harness
-	vAssume(!(w.tombstone && w.hasLeaf))
 	vhAtt = w
 	col, store := vhAttSetup()
 	callback := func(d *Document) (*Document, updatedAttachments, bool, *uint32, error) {
@@ -240,7 +266,7 @@ func VHarness_C14_ObsoleteSweep() {
 		nd.SetAttachments(vhAttMeta(w.newAtts))
 		return nd, vhAttUploads(w), false, nil, nil
 	}
-	_, _, err := col.updateAndReturnDoc(ctx, "doc", true, nil, nil, ExistingVersion, nil, false, false, callback)
+	doc, _, err := col.updateAndReturnDoc(ctx, "doc", true, nil, nil, ExistingVersion, nil, false, false, callback)
 	vAssert(err == nil, "the write succeeds")
 	if err != nil {
 		return
@@ -256,6 +282,13 @@ func VHarness_C14_ObsoleteSweep() {
 		before := w.curAtts[i] || (w.hasLeaf && w.leafAtts[i])
 		// after the write the leaves are 4-c (with the new revision's attachments) and, if present, 2-a
 		after := w.newAtts[i] || (w.hasLeaf && w.leafAtts[i])
+		if w.tombstone && w.hasLeaf {
+			// the tombstone hands the document over to the conflicting leaf 2-a, whose attachments become the document's
+			vCover("tombstone-promotes-conflicting-leaf")
+			_, listed := doc.Attachments()[[2]string{"x.txt", "y.txt"}[i]]
+			vAssert(doc.GetRevTreeID() == "2-a", "the conflicting leaf becomes current when the winning branch is tombstoned")
+			vAssert(listed == w.leafAtts[i], "the document lists exactly the attachments of the revision that became current")
+		}
 		if w.newAtts[i] && w.uploaded[i] {
 			vAssert(vhAttHas(store.added, key), "attachment data uploaded with the write is stored")
 		}
